@@ -1,5 +1,6 @@
 import Clover.Probe.Keys
 import Clover.Model.Index
+import Clover.Proofs.RefineWrites
 /-! # C13 — collection catalog exact, collections isolated (key-space part)
 
 The functions below (`Keys.docKey`, `Keys.docPrefix`, `Keys.idxPrefix`, `Keys.metaKey`) are the ones
@@ -25,5 +26,16 @@ theorem doc_key_injective (c c' id id' : Bytes) (hc : Clean c) (hc' : Clean c')
     (h : docKey c id = docKey c' id') : c = c' ∧ id = id' := docKey_inj c c' id id' hc hc' h
 
 example : Clean [0x61, 0x2E, 0x62] := by simp [Clean, semi]   -- "a.b" is a supported name
+
+/-- **CreateCollection** answers what the specification answers (ErrCollectionExist for an existing
+    name, without side effects) and the new store represents the specification's new state, which
+    is again well formed: the catalog is exact after it, and every other collection is untouched
+    (the representation relation determines the whole store). -/
+theorem createCollection_exact (likeFn : CV.LikeFn) (fnFam : CV.FnFam) (s : CV.Spec.State) (σ : CV.KVS)
+    (hw : CV.WF s) (hr : CV.Rep s σ) (c : Bytes) (hc : Clean c) :
+    let r := CV.withTx true (CV.Op.body likeFn fnFam (.createCollection c)) CV.noFault σ
+    let sp := CV.Spec.step likeFn fnFam s (.createCollection c)
+    r.1 = sp.1 ∧ CV.Rep sp.2 r.2.1 ∧ CV.WF sp.2 :=
+  CV.createCollection_refines likeFn fnFam s σ hw hr c hc
 
 end CV.Props.C13
